@@ -30,6 +30,12 @@ func init() {
 func (c *Ctx) mapTable(pkgrel, ts, name string) (*MapV, *types.Var, token.Pos) {
 	v := c.tableVar(pkgrel, ts, name)
 	if v == nil {
+		// the same table kept as an array indexed by the enumeration instead of a map keyed by it
+		if m, av, pos := c.arrayAsMapTable(pkgrel, ts); m != nil {
+			return m, av, pos
+		}
+	}
+	if v == nil {
 		c.missing(pkgrel + "." + name + " (" + ts + ")")
 		return nil, nil, 0
 	}
@@ -58,6 +64,98 @@ func (c *Ctx) mapTable(pkgrel, ts, name string) (*MapV, *types.Var, token.Pos) {
 		return nil, v, pos
 	}
 	return m, v, pos
+}
+
+// arrayAsMapTable: for a table type map[K]V, the unique package-level array (or slice literal) of V, read as the map
+// from index to element with the indexes typed K; rows that are entirely zero (the unused slot of the enumeration's zero
+// value) are left out.
+func (c *Ctx) arrayAsMapTable(pkgrel, ts string) (*MapV, *types.Var, token.Pos) {
+	p := c.pkg(pkgrel)
+	if p == nil || !strings.HasPrefix(ts, "map[") {
+		return nil, nil, 0
+	}
+	end := strings.Index(ts, "]")
+	if end < 0 {
+		return nil, nil, 0
+	}
+	keyTS, valTS := ts[4:end], ts[end+1:]
+	var keyT types.Type
+	for _, n := range p.Types.Scope().Names() {
+		if tn, ok := p.Types.Scope().Lookup(n).(*types.TypeName); ok && short(tn.Type().String()) == keyTS {
+			keyT = tn.Type()
+		}
+	}
+	if keyT == nil {
+		return nil, nil, 0
+	}
+	var cands []*types.Var
+	for _, n := range p.Types.Scope().Names() {
+		v, ok := p.Types.Scope().Lookup(n).(*types.Var)
+		if !ok {
+			continue
+		}
+		var elem types.Type
+		switch t := v.Type().Underlying().(type) {
+		case *types.Array:
+			elem = t.Elem()
+		case *types.Slice:
+			elem = t.Elem()
+		}
+		if elem != nil && short(elem.String()) == valTS {
+			cands = append(cands, v)
+		}
+	}
+	if len(cands) != 1 {
+		return nil, nil, 0
+	}
+	val, pos, err := c.evalVar(cands[0])
+	lv, ok := val.(*ListV)
+	if err != nil || !ok {
+		return nil, nil, 0
+	}
+	var isZero func(x Val) bool
+	isZero = func(x Val) bool {
+		switch y := x.(type) {
+		case nil:
+			return true
+		case *CVal:
+			if y.V == nil {
+				return true
+			}
+			switch y.V.Kind() {
+			case constant.String:
+				return constant.StringVal(y.V) == ""
+			case constant.Bool:
+				return !constant.BoolVal(y.V)
+			case constant.Int, constant.Float:
+				return constant.Sign(y.V) == 0
+			}
+			return false
+		case *StructV:
+			for _, f := range y.Fields {
+				if !isZero(f) {
+					return false
+				}
+			}
+			return true
+		}
+		return false
+	}
+	m := &MapV{T: types.NewMap(keyT, cands[0].Type())}
+	for i, e := range lv.Elems {
+		if isZero(e) {
+			continue
+		}
+		ep := pos
+		if i < len(lv.Poss) && lv.Poss[i] != 0 {
+			ep = lv.Poss[i]
+		}
+		m.Entries = append(m.Entries, KV{K: &CVal{V: constant.MakeInt64(int64(i)), T: keyT, c: c}, V: e, Pos: ep})
+	}
+	if len(m.Entries) == 0 {
+		return nil, nil, 0
+	}
+	return m, cands[0], pos
 }
 
 // printedTable is mapTable for a table whose only reader is a printer method over an enum: when the variable is gone
